@@ -380,7 +380,7 @@ func (fr *Frame) callFunc(in ssa.Instruction, f *ssa.Function, bindings []Value,
 	if c != nil && !c.Inline {
 		return fr.callModular(in, f, c, args, st, rt)
 	}
-	if c != nil && c.Inline || len(bindings) > 0 || f.Parent() != nil || p.eng.autoInline[full] {
+	if c != nil && c.Inline || len(bindings) > 0 || f.Parent() != nil || p.eng.autoInline[full] || p.eng.isSpecFunc(f) {
 		if len(f.Blocks) == 0 {
 			return fr.havocCall(in, full, args, st, rt, f)
 		}
@@ -1115,7 +1115,7 @@ func (fr *Frame) callEffects(fn *ssa.Function, cc *ssa.CallCommon, e *effects, m
 		}
 		return
 	}
-	if (c != nil && c.Inline) || callee.Parent() != nil || viaClosure || p.eng.autoInline[full] {
+	if (c != nil && c.Inline) || callee.Parent() != nil || viaClosure || p.eng.autoInline[full] || p.eng.isSpecFunc(callee) {
 		if seen[callee] || depth > 6 || len(callee.Blocks) == 0 {
 			return
 		}
